@@ -7,3 +7,80 @@ add("C01",
     "exhaustive enumeration (all 5-card subsets x 120 slot orders x 6 entry points) against a rule-based poker ordinal model; proptest random pairs for the comparator form",
     "The whole stated domain is enumerated (1.87e9 evaluations, ~6 s): every five-card subset in every slot order through every five-card entry point must return the strength ordinal computed by an independent rule-based model; observed per-value hand counts must equal the model's class sizes (so every value 1..=7462 is produced and equal value <=> tie). Exhaustive exploration is the strongest thing testing can give and the domain is small enough to close the quantifier.",
     "Trusted: the reference model (harness/src/model/poker.rs), self-checked at start-up against the published 7462 classes, per-category class counts and five-card frequencies; that the model's 52 words are the crate's cards (C10).")
+
+add("C02",
+    "exhaustive enumeration of all 6-card (and, thorough, all 7-card) subsets against two independent rule-based models; seeded slot orders; proptest-chosen hands under every slot order",
+    "Every six-card subset and (quick: a seeded 1-in-8 stratum of / thorough: every one of the 133,784,560) seven-card subsets is ranked through all five entry points and must equal the minimum ordinal over all five-subsets computed by the model, which must itself equal a direct rule-based n-card evaluation; seeded slot orders per hand and random hands under all 720/5040 orders attack order dependence. Closing the hand quantifier by enumeration is feasible; the order quantifier (N! per hand) is sampled.",
+    "Trusted: model (two forms cross-checked on every hand; best-hand category frequencies compared with the published 6-/7-card counts whenever the enumeration is complete). Slot orders beyond canonical are sampled.")
+add("C03",
+    "same enumerations as C02 with a validity predicate over the reported witness; exhaustive identity clause over all five-card hands x 120 orders",
+    "The reported hand is checked with a validity predicate (five slots, all from the input, distinct, strictly descending, ranks to the reported value by the crate and by the model) rather than one expected answer, because ties admit several correct witnesses; for five-card inputs the witness must be the input unchanged in every one of the 120 orders.",
+    "Trusted: model ordinal for the witness; no claim about which of several equally ranked witnesses is chosen.")
+add("C04",
+    "exhaustive 2^32 scan of the per-slot recogniser + structured/exhaustive near-miss placement + proptest hands with shrinking; libFuzzer target (thorough)",
+    "The per-slot factor of the domain (every u32) is enumerated; whole hands are an open domain and are explored with structure: every near-miss word (Hamming distance <= 2 of a card, fragments, flags) in every slot of every size, every duplicated slot pair, all arrangements over a small alphabet, 400k (thorough 5M) weighted proptest hands, and a coverage-guided campaign. Oracle: valid <=> every slot a model card and no two equal.",
+    "Trusted: model card recogniser (layout formula); whole-hand space is sampled, not closed.")
+add("C05",
+    "exhaustive enumeration of all card-or-blank multisets (5,6 slots; 7 slots stratum/all), all 53^5 ordered arrays, all keys below 2^30 (thorough 2^32), in two build profiles",
+    "Totality over the stated alphabet is closed by enumeration in both semantics-relevant build profiles (overflow checks + debug assertions on / off); a five-slot hand with a blank must give 0 and Invalid through every entry point; hands of distinct cards must additionally equal the model.",
+    "Trusted: opt-level 0 equivalent to the two opt-level-3 profiles; non-termination is only detectable as a watchdog timeout (exit 2).")
+add("C06",
+    "exhaustive: all 65,536 values and all enum variants against model-derived class text; all 5/6-card (7-card stratum/all) hands through hand_rank",
+    "Every value is converted and its category/class text compared with the text the model builds from the ranks of the poker class with that ordinal; every non-Invalid variant must label one contiguous non-empty range; for every hand the reported rank must equal the conversion of the model's ordinal (so the text describes the actual cards).",
+    "Trusted: model class naming (documented spellings Trey/Deuce); variants compared by Debug text.")
+add("C07",
+    "exhaustive: all 2^32 ordered pairs of converted values against an implementation-derived integer key + stated direction; all adjacent values for the enums",
+    "All 65,536^2 pairs: cmp must agree with the order of an integer key derived from cmp itself (settles transitivity over all triples), with partial_cmp, the four operators, and == ; stated direction checked independently.",
+    "Trusted: nothing beyond the statement; direction among invalid ranks deliberately not asserted.")
+add("C08",
+    "exhaustive metamorphic check: all five-card hands x 24 suit relabellings, all six-card (seven-card stratum/all) hands x 3 shifts, tied to the model ordinal; proptest for the slot-wise clause",
+    "Value invariance is checked under every relabelling of the four suits on every five-card hand and under the crate's own shifts on six/seven-card hands, and each value is also tied to the model so a symmetric bug cannot hide; container shifting is compared slot by slot with the model shift on generated hands.",
+    "Trusted: model shift (next suit, same rank). For non-card words the container shift is compared with the crate's per-word shift.")
+add("C09",
+    "exhaustive metamorphic check over all six-card (seven-card stratum/all) subsets with all their sub-hands, values memoised from the crate",
+    "Purely relational (no poker oracle): v(n) <= v(sub) for every sub-hand and v(n) = min over sub-hands, all values in 1..=7462.",
+    "Trusted: nothing; a consistently wrong evaluator would satisfy the relation, which is why C02 carries the rule-based oracle.")
+add("C10",
+    "exhaustive: 70 rank/suit pairs, 52 constants, deck, all accessors, all 2^32 words through the filter",
+    "Finite domain closed completely against the documented layout formula.",
+    "Trusted: the layout formula as documented in the README / lib.rs diagram.")
+add("C11",
+    "exhaustive card pairs and small-alphabet tuples + proptest arrays of arbitrary words with forced duplicates (shrinking)",
+    "Sorting is checked in both directions (non-increasing and same multiset) plus idempotence, in-place agreement and non-mutation of the receiver.",
+    "Trusted: std sort as the reference arrangement. Arbitrary arrays sampled.")
+add("C12",
+    "exhaustive symbol tables over all Unicode scalar values and token alphabet; proptest texts and arbitrary strings with shrinking; libFuzzer target (thorough)",
+    "Symbol tables closed over every char; first-two-characters rule over an adversarial alphabet squared x tails; hand parsers on generated texts with k<N / k=N tokens; totality on arbitrary strings.",
+    "Trusted: model tokenisation on the five common separators; texts with other whitespace or more tokens than slots only checked for totality.")
+add("C13",
+    "exhaustive: all five-card hands (canonical + seeded orders) against predicates computed from card fields, and against the rank category",
+    "All 2,598,960 hands; includes the 58,824 paired hands whose ranks span five places.",
+    "Trusted: model predicates; slot orders sampled (predicates are symmetric bit operations).")
+add("C14",
+    "exhaustive: all 2^32 words -> bit; all one- and two-bit sets -> word; constants; proptest 64-bit values",
+    "Word side closed; set side closed for population counts 0..2 and sampled beyond.",
+    "Trusted: bit 51 - deck position convention from the statement.")
+add("C15",
+    "model-based stateful proptest (histories of set operations vs a u64 model, compared after every step) + exhaustive small hands + peel-to-exhaustion; libFuzzer target (thorough)",
+    "Histories of up to 80 operations are run against the model step by step; every generated set is peeled to exhaustion plus three extra peels.",
+    "Trusted: u64 set model. Open domain sampled.")
+add("C16",
+    "exhaustive over all one- and two-bit values + proptest over population counts",
+    "The result depends on population count and overflow bits only; all 2,081 boundary values enumerated.",
+    "Trusted: statement's error classes.")
+add("C17",
+    "exhaustive: all 2,652 ordered pairs against an integer half-point model of Chen's formula",
+    "Finite domain closed completely; helpers, symmetry and shift invariance included.",
+    "Trusted: Chen's published formula as restated in the property.")
+add("C18",
+    "exhaustive table check against generated combination sets; structured + proptest usize indexes",
+    "Every table entry against the full combination set (both directions); all index classes for deck access.",
+    "Trusted: combination generator.")
+add("C19",
+    "model-based stateful proptest (constructor/setter/selection histories vs an array model) + exhaustive setters and selection tuples; libFuzzer target (thorough)",
+    "Every setter, constructor and in-range selection tuple enumerated; histories with arbitrary words sampled with a full read-back after every step.",
+    "Trusted: array model.")
+add("C20",
+    "exhaustive: 52 cards x all mark subsets in all call orders x all comparison partners",
+    "Finite domain closed completely.",
+    "Trusted: flags occupy bits 29-31 as documented.")
